@@ -42,7 +42,7 @@ var checks = map[string]*checkDef{
 	"C19": {
 		property: "C19", level: "fault_enumeration",
 		plan: []planItem{
-			{workload: "C19", variant: "plain", quick: 700, thorough: 14000},
+			{workload: "C19", variant: "plain", quick: 1400, thorough: 60000},
 			{workload: "C19", variant: "purego", quick: 210, thorough: 1400},
 			{workload: "C19", variant: "force32bit", quick: 210, thorough: 1400},
 			{workload: "C19", variant: "noavx2", quick: 140, thorough: 1400},
